@@ -34,4 +34,6 @@ try:
             print(c.stderr[-1500:])
 finally:
     subprocess.run(["git", "-C", "/repo", "checkout", "--", "."], check=True)
+    # rebuild the harness from the restored tree so that a later --no-build run is not stale
+    subprocess.run(["cargo", "build", "--release", "--offline"], cwd=os.path.join(ROOT, "harness"), capture_output=True)
     print("restored /repo")
